@@ -746,9 +746,6 @@ class Runner:
     def __init__(self, scn, rt=None):
         self.scn = scn
         self.rt = rt or Recorder(scn)
-        self.rt.runner = self
-        self.opts = {}          # slot -> options of the machine in it
-        self.async_hint = {}    # slot -> the definition gives the machine coroutine callbacks
         lazy = {st["k"] for st in scn["steps"] if st["op"] == "class"}
         self.built = [None] * len(scn["classes"])
         for k, d in enumerate(scn["classes"], start=1):
@@ -756,6 +753,14 @@ class Runner:
             if k not in lazy:
                 self.build_class(k)
         self.ni = scn.get("ni", 3)
+        self.init_runtime()
+
+    def init_runtime(self):
+        """Per-run bookkeeping (also called by checks that assemble a Runner around classes they built themselves)."""
+        self.rt.runner = self
+        self.opts = {}          # slot -> options of the machine in it
+        self.async_hint = {}    # slot -> the definition gives the machine coroutine callbacks
+        self.constructing = 0
         self.sm = {}        # slot -> machine
         self.models = {}    # slot -> model
         self.cls_of = {}    # slot -> class index (1-based)
